@@ -16,11 +16,11 @@ META = {
 }
 
 ALLOWED_AXIOMS = ()
-MODEL_VOS = ["Base/Conv.vo", "IO/Circuit.vo", "IO/Aiger.vo"]
+MODEL_VOS = ["Base/Conv.vo", "IO/Circuit.vo", "IO/Aiger.vo", "IO/AigerParse.vo"]
 
 
 def build(ctx):
-    drv = vf.ocaml_build(ctx, "ExC18.v", "c18_main.ml", model_vos=MODEL_VOS)
+    drv = vf.ocaml_build(ctx, "ExC18.v", "c18_main.ml", extra_ml=("c18p.ml",), model_vos=MODEL_VOS)
     bins = vf.cargo_build(["h_circ"])
     # the parser stream also runs with debug assertions and overflow checks
     dbg = vf.cargo_build(["h_circ"], profile="debug")
@@ -96,6 +96,13 @@ def handle_bad(ctx, binp, drv, cases, bad, profile):
         if typ.startswith("circ") or typ == "dangling":
             small, smsg = shrink_circ(ctx, binp, drv, header, ops[0], kind)
             ops, msg = [small], (smsg or msg)
+        elif typ == "aigmut":
+            # replay only the offending input (the driver quotes it)
+            m = re.search(r"input=(\S+)", msg)
+            if m:
+                ops = [f"A {ops[0].split()[1]} {m.group(1)}"]
+        elif typ == "aigwf":
+            pass  # the aag / aig pair stays together
         elif typ == "batch":
             # replay only the offending input
             m = re.search(r"PANIC input=(\S+)", msg)
@@ -125,7 +132,11 @@ def vf_param(header, key):
 
 def run_shard(ctx, binp, dbg, drv, what, shard, nshards, extra_cases=()):
     tag = f"-{what}-{shard}"
-    rc, out = vf.sh([binp, "gen", ctx.tier, str(ctx.seed), str(shard), str(nshards), what])
+    if what == "aigwf":
+        # well-formed problems generated and printed (aag + aig) by the extracted model
+        rc, out = vf.sh([drv, "genaig", ctx.tier, str(ctx.seed + shard)])
+    else:
+        rc, out = vf.sh([binp, "gen", ctx.tier, str(ctx.seed), str(shard), str(nshards), what])
     if rc != 0:
         raise vf.CheckFailure("generator failed: " + out[-500:])
     cases = list(extra_cases) + vf.parse_cases(out)
@@ -137,7 +148,7 @@ def run_shard(ctx, binp, dbg, drv, what, shard, nshards, extra_cases=()):
     vf.write_cases(cases_file, cases)
     env = {"VERIF_WORK": ctx.workdir}
     res = []
-    profiles = [("release", binp)] + ([("debug", dbg)] if what == "parse" else [])
+    profiles = [("release", binp)] + ([("debug", dbg)] if what in ("parse", "aiger", "aigwf") else [])
     for prof, b in profiles:
         ok, bad = vf.lockstep(ctx, b, drv, cases_file, tag=tag + "-" + prof, env=env, timeout=3000)
         res.append((prof, ok, bad))
@@ -160,6 +171,9 @@ def run(ctx):
     corpus = [("corpus-" + h, ops) for h, ops in corpus]
     nshards = 24 if ctx.tier == "thorough" else 1
     jobs = [("circ", s, nshards) for s in range(nshards)] + [("parse", s, max(1, nshards // 6)) for s in range(max(1, nshards // 6))]
+    # C18p: the model of the AIGER reader against the real parser
+    jobs += [("aiger", s, max(1, nshards // 6)) for s in range(max(1, nshards // 6))]
+    jobs += [("aigwf", s, 1) for s in range(4 if ctx.tier == "thorough" else 1)]
     total_ok = 0
     distinct = set()
     samples = []
@@ -181,7 +195,7 @@ def run(ctx):
                         # non-trivial: some gate has at least two literals
                         if any(len(g.split()) >= 3 for g in o.split("|")[1].split(";")):
                             distinct.add(hash(o))
-                    elif o[0] in "PQV":
+                    elif o[0] in "PQVAD":
                         distinct.add(hash(o))
             if s == 0:
                 k = len(cases)
